@@ -104,6 +104,25 @@ VH_AREA(rewrite) {
             qec = true;
             st.hit("cases.qec_like");
         }
+        if (a.replay.empty() && (kind == 1 || kind >= 4) && rng.chance(0.3)) {
+            // annotations made only of padding / herald results, declared before anything collapses a qubit
+            Circuit head;
+            if (rng.chance(0.3)) head.safe_append_u("H", {0});
+            size_t made = 0;
+            for (size_t i = 0; i < 1 + rng.below(2); i++) {
+                int w = (int)rng.below(3);
+                if (w == 0) { head.safe_append_u("MPAD", {(uint32_t)rng.below(2), (uint32_t)rng.below(2)}); made += 2; }
+                else if (w == 1) { head.safe_append_u("HERALDED_ERASE", {(uint32_t)rng.below(2)}, {0.125}); made += 1; }
+                else { head.safe_append_u("HERALDED_PAULI_CHANNEL_1", {(uint32_t)rng.below(2)}, {0.01, 0.01, 0, 0.125}); made += 1; }
+                std::vector<uint32_t> recs = {TARGET_RECORD_BIT | 1u};
+                if (made >= 2 && rng.chance(0.5)) recs.push_back(TARGET_RECORD_BIT | 2u);
+                if (rng.chance(0.7)) head.safe_append_u("DETECTOR", recs);
+                else head.safe_append_u("OBSERVABLE_INCLUDE", recs, {(double)rng.below(2)});
+            }
+            c = head + c;
+            nq = std::max(nq, 2);
+            st.hit("cases.leading_pad_or_herald_annotations");
+        }
         if (a.replay.empty()) {
             c = compact_circuit(c);
             if (rng.chance(0.5)) c = with_random_tags(c, rng);
